@@ -4,7 +4,7 @@
      title                         : the sequence is non-empty (compile_title_spec)
      timeline                      : no later create re-uses the first id (compile_timeline_spec)
      metadata                      : full ids pairwise distinct (compile_meta_spec)
-     comments, actors/participants : valid_ids                  (compile_comments_actors_spec)
+     comments, actors/participants : valid_ids = distinct full ids (compile_comments_actors_spec)
    and the counterexamples at the end show that the hypotheses cannot be dropped. *)
 From Coq Require Import List Arith NArith Bool Lia Sorting.Sorted Sorting.Permutation.
 Import ListNotations.
@@ -261,24 +261,13 @@ Theorem compile_meta_spec ops : NoDup (map snd (op_ids ops)) ->
 Proof. intros ND. unfold compile. rewrite (fold_extra ops (seed ops) eq_refl ND). symmetry. apply spec_meta_raw. Qed.
 
 (* ------------------------------------------------------------------ validity of the ids, as propositions *)
-Definition coherent (ops : list op) : Prop :=
-  forall t a, In t (edit_targets ops) -> In a (op_ids ops) -> snd a = snd t -> fst a = fst t.
-Definition validP (ops : list op) : Prop :=
-  NoDup (map snd (op_ids ops)) /\ NoDup (map fst (op_ids ops)) /\ coherent ops.
+Definition validP (ops : list op) : Prop := NoDup (map snd (op_ids ops)).
 
 Lemma valid_ids_validP ops : valid_ids ops = true <-> validP ops.
-Proof. unfold valid_ids, validP. rewrite !andb_true_iff, !nodupb_NoDup.
-  assert (H : coherent_targets ops = true <-> coherent ops); [|tauto].
-  unfold coherent_targets, coherent. rewrite forallb_forall. split.
-  - intros H t a Ht Ha E. specialize (H t Ht). rewrite forallb_forall in H. specialize (H a Ha).
-    unfold id_eqb, tgt_match in H. apply N.eqb_eq in E. rewrite E in H. cbn in H. now apply N.eqb_eq.
-  - intros H t Ht. apply forallb_forall. intros a Ha. unfold id_eqb, tgt_match.
-    destruct (N.eqb_spec (snd a) (snd t)) as [E|]; cbn; [|reflexivity]. apply N.eqb_eq. now apply H. Qed.
+Proof. unfold valid_ids, validP. apply nodupb_NoDup. Qed.
 
 Lemma validP_prefix p o : validP (p ++ [o]) -> validP p.
-Proof. unfold validP, coherent, edit_targets, op_ids. rewrite !map_app, flat_map_app. intros (A & B & C).
-  apply NoDup_snoc in A as [A _]. apply NoDup_snoc in B as [B _]. repeat split; auto.
-  intros t a Ht Ha. apply C; apply in_or_app; now left. Qed.
+Proof. unfold validP, op_ids. rewrite !map_app. intros A. now apply NoDup_snoc in A as [A _]. Qed.
 
 (* a valid bug has no second create operation with the first id *)
 Lemma valid_ids_no_recreate o1 rest : NoDup (map snd (op_ids (o1 :: rest))) -> forall o, In o rest -> not_recreate (op_id o1) o.
@@ -322,46 +311,38 @@ Proof. unfold upd. now destruct (id_eqb _ _). Qed.
 Lemma map_upd_ids t msg files cs : map c_id (map (upd t msg files) cs) = map c_id cs.
 Proof. rewrite map_map. apply map_ext. intros c. apply upd_id. Qed.
 
-(* where combined ids (14 characters) and full ids agree, the first-match update is the update of all matches *)
-Lemma upd_comment_map t msg files : forall cs,
-  (forall c, In c cs -> tgt_match (c_id c) t = id_eqb (c_id c) t) -> NoDup (map (fun c => snd (c_id c)) cs) ->
+(* full ids being distinct, the first-match update is the update of all matches *)
+Lemma upd_comment_map t msg files : forall cs, NoDup (map (fun c => snd (c_id c)) cs) ->
   upd_comment t msg files cs = map (upd t msg files) cs.
-Proof. unfold upd_comment. induction cs as [|c r IH]; intros Ag ND; cbn [map]; [reflexivity|].
-  inversion ND as [|? ? Hn ND']; subst. unfold upd at 1. rewrite (Ag c (or_introl eq_refl)).
+Proof. unfold upd_comment. induction cs as [|c r IH]; intros ND; cbn [map]; [reflexivity|].
+  inversion ND as [|? ? Hn ND']; subst. unfold upd at 1.
   destruct (id_eqb (c_id c) t) eqn:E.
   - f_equal. symmetry. apply map_id_on. intros c' Hc'. unfold upd. replace (id_eqb (c_id c') t) with false; [reflexivity|].
     symmetry. unfold id_eqb in *. apply N.eqb_eq in E. apply N.eqb_neq. intros H. apply Hn. rewrite E, <- H.
     now apply (in_map (fun c => snd (c_id c))).
-  - f_equal. apply IH; auto. intros c' Hc'. apply Ag. now right. Qed.
+  - f_equal. apply IH; auto. Qed.
 
-(* the heart of the matter: an edit whose target is the full id of a comment resolves, through the 14-character
-   combined ids, to that very comment *)
+(* the heart of the matter: an edit whose target is the full id of a comment resolves to that very comment and to
+   a comment item of the timeline, whatever the first 14 characters of the ids are *)
 Lemma edit_resolves (tl : list titem) (cs : list comment) (ids : list opid) t msg files :
-  NoDup (map fst ids) -> NoDup (map snd ids) ->
-  NoDup (map titem_id tl) -> (forall it, In it tl -> In (titem_id it) ids) ->
+  NoDup (map snd ids) ->
+  (forall it, In it tl -> In (titem_id it) ids) ->
   (forall c, In c cs -> In (TComment (c_id c)) tl) -> NoDup (map c_id cs) ->
-  (forall a, In a ids -> snd a = snd t -> fst a = fst t) ->
   existsb (fun c => id_eqb (c_id c) t) cs = true ->
   (exists i, timeline_target tl t = Some (TComment i)) /\ upd_comment t msg files cs = map (upd t msg files) cs.
-Proof. intros Nf Ns Nt Hin Hct Nc Coh Ex.
-  apply existsb_exists in Ex as (c0 & Hc0 & E0). unfold id_eqb in E0. apply N.eqb_eq in E0.
+Proof. intros Ns Hin Hct Nc Ex.
+  apply existsb_exists in Ex as (c0 & Hc0 & E0).
   assert (Hids : forall c, In c cs -> In (c_id c) ids) by (intros c Hc; apply (Hin _ (Hct c Hc))).
-  assert (F0 : fst (c_id c0) = fst t) by (apply Coh; auto).
   split.
-  - exists (c_id c0). unfold timeline_target. apply find_unique; [now apply Hct| |].
-    + unfold tgt_match. now apply N.eqb_eq.
-    + intros y Hy Fy. apply (NoDup_map_inj_on titem_id tl Nt); [exact Hy|now apply Hct|]. cbn [titem_id].
-      apply (NoDup_map_inj_on fst ids Nf); [now apply Hin|now apply Hids|].
-      rewrite F0. destruct y; unfold tgt_match in Fy; now apply N.eqb_eq in Fy.
+  - unfold timeline_target.
+    destruct (find _ tl) as [x|] eqn:F.
+    + apply find_some in F as [_ F]. destruct x; [now eexists|discriminate].
+    + pose proof (find_none _ _ F _ (Hct c0 Hc0)) as F'. cbn in F'. congruence.
   - apply upd_comment_map.
-    + intros c Hc. unfold tgt_match, id_eqb. destruct (N.eqb_spec (snd (c_id c)) (snd t)) as [E|E].
-      * apply N.eqb_eq. apply Coh; auto.
-      * apply N.eqb_neq. intros F. apply E. rewrite <- E0. f_equal.
-        apply (NoDup_map_inj_on fst ids Nf); auto. now rewrite F, F0.
-    + rewrite <- (map_map c_id snd). apply NoDup_map_on; [|exact Nc].
-      intros x y Hx Hy. apply (NoDup_map_inj_on snd ids Ns).
-      * apply in_map_iff in Hx as (c & <- & Hc). now apply Hids.
-      * apply in_map_iff in Hy as (c & <- & Hc). now apply Hids. Qed.
+    rewrite <- (map_map c_id snd). apply NoDup_map_on; [|exact Nc].
+    intros x y Hx Hy. apply (NoDup_map_inj_on snd ids Ns).
+    + apply in_map_iff in Hx as (c & <- & Hc). now apply Hids.
+    + apply in_map_iff in Hy as (c & <- & Hc). now apply Hids. Qed.
 
 Record Inv (first : opid) (p : list op) (s : snapshot) : Prop := {
   inv_id : s_id s = Some first;
@@ -375,10 +356,10 @@ Record Inv (first : opid) (p : list op) (s : snapshot) : Prop := {
 Lemma inv_step first p s o :
   In first (op_ids p) -> validP (p ++ [o]) -> Inv first p s -> Inv first (p ++ [o]) (apply s o).
 Proof.
-  intros Hfirst (Ns & Nf & Coh) [Hid Hc Ha Hnd Hin Hct Hcn].
-  assert (Ns' := Ns). assert (Nf' := Nf).
-  unfold op_ids in Ns', Nf'. rewrite !map_app in Ns', Nf'. cbn [map] in Ns', Nf'.
-  apply NoDup_snoc in Ns' as [Nsp Hnew_s]. apply NoDup_snoc in Nf' as [Nfp _].
+  intros Hfirst Ns [Hid Hc Ha Hnd Hin Hct Hcn]. unfold validP in Ns.
+  assert (Ns' := Ns).
+  unfold op_ids in Ns'. rewrite !map_app in Ns'. cbn [map] in Ns'.
+  apply NoDup_snoc in Ns' as [Nsp Hnew_s].
   assert (Hnew : ~ In (op_id o) (op_ids p)).
   { intros H. apply Hnew_s. now apply in_map. }
   assert (Hne : id_eqb (op_id o) first = false).
@@ -408,10 +389,7 @@ Proof.
   - (* edit comment *)
     rewrite existsb_map in Fa.
     destruct (existsb (fun c => id_eqb (c_id c) target) (s_comments s)) eqn:Ex; cbn [negb].
-    + destruct (edit_resolves (s_timeline s) (s_comments s) (op_ids p) target msg files Nfp Nsp Hnd Hin Hct Hcn) as ((i & Ht) & Hu); auto.
-      { intros a Ha' E. apply Coh; auto.
-        - unfold edit_targets. rewrite flat_map_app. apply in_or_app. right. now left.
-        - unfold op_ids. rewrite map_app. apply in_or_app. now left. }
+    + destruct (edit_resolves (s_timeline s) (s_comments s) (op_ids p) target msg files Nsp Hin Hct Hcn) as ((i & Ht) & Hu); auto.
       rewrite Ht. cbn. rewrite Hu. constructor; cbn; auto.
       * rewrite Fa, map_upd_ids. reflexivity.
       * intros c Hc'. apply in_map_iff in Hc' as (c' & <- & Hc'). rewrite upd_id. now apply Hct.
@@ -460,7 +438,7 @@ Theorem compile_spec ops o1 rest : ops = o1 :: rest -> valid_ids ops = true ->
   s_comments s = spec_comments first ops /\ (s_actors s, s_parts s) = spec_actors_parts first ops /\
   map titem_view (s_timeline s) = spec_timeline first ops /\ s_ops s = map op_id ops /\
   map (fun e => kv_sort (snd e)) (s_extra s) = spec_meta ops.
-Proof. intros -> V s first. pose proof V as V'. apply valid_ids_validP in V' as (Ns & _ & _).
+Proof. intros -> V s first. pose proof V as Ns. apply valid_ids_validP in Ns. unfold validP in Ns.
   destruct (compile_comments_actors_spec o1 rest V) as [Hc Ha].
   split; [apply compile_title_spec|]. split; [apply compile_status_spec|]. split; [apply compile_labels_spec|].
   split; [exact Hc|]. split; [exact Ha|].
@@ -485,25 +463,29 @@ Definition ex_ops : list op :=
 Example ex_ops_valid : valid_ids ex_ops = true.
 Proof. reflexivity. Qed.
 
-(* two operations sharing their first 14 characters (full ids distinct, targets coherent): the edit of the second
-   lands on the first.  This is the documented assumption of C10, not a defect of the model. *)
+(* two operations sharing their first 14 characters (full ids distinct): valid, and the edit of the second lands on
+   the second — also with a non-comment item sharing the 14 characters in front *)
 Definition ex_head_collision : list op :=
   [OCreate (1, 1) 1 1 1 []; OAddComment (2, 2) 1 1 []; OAddComment (2, 3) 1 2 []; OEditComment (3, 4) 2 (2, 3) 9 []].
-Example head_collision_needed :
-  nodupb (map snd (op_ids ex_head_collision)) = true /\ coherent_targets ex_head_collision = true /\
-  nodupb (map fst (op_ids ex_head_collision)) = false /\
-  map c_msg (s_comments (compile ex_head_collision)) = [1; 9; 2] /\
-  map c_msg (spec_comments (1, 1) ex_head_collision) = [1; 1; 9].
+Definition ex_head_collision_other : list op :=
+  [OCreate (1, 1) 1 1 1 []; OSetStatus (2, 2) 1 2; OAddComment (2, 3) 1 2 []; OEditComment (3, 4) 2 (2, 3) 9 []].
+Example head_collision_harmless :
+  valid_ids ex_head_collision = true /\ heads_distinct ex_head_collision = false /\
+  map c_msg (s_comments (compile ex_head_collision)) = [1; 1; 9] /\
+  map c_edits (s_comments (compile ex_head_collision)) = [0; 0; 1]%nat /\
+  s_comments (compile ex_head_collision) = spec_comments (1, 1) ex_head_collision /\
+  valid_ids ex_head_collision_other = true /\
+  map c_msg (s_comments (compile ex_head_collision_other)) = [1; 9] /\
+  s_actors (compile ex_head_collision_other) = [1; 2].
 Proof. vm_compute. repeat split. Qed.
 
 (* a target that has the full id of a comment but not its first 14 characters (impossible for ranks of real
-   strings): the model drops the edit, the specification applies it *)
+   strings): no longer matters either *)
 Definition ex_incoherent : list op := [OCreate (1, 1) 1 1 1 []; OEditComment (2, 2) 2 (5, 1) 9 []].
-Example coherence_needed :
-  nodupb (map snd (op_ids ex_incoherent)) = true /\ nodupb (map fst (op_ids ex_incoherent)) = true /\
-  coherent_targets ex_incoherent = false /\
-  map c_msg (s_comments (compile ex_incoherent)) = [1] /\ map c_msg (spec_comments (1, 1) ex_incoherent) = [9] /\
-  s_actors (compile ex_incoherent) = [1] /\ fst (spec_actors_parts (1, 1) ex_incoherent) = [1; 2].
+Example coherence_not_needed :
+  valid_ids ex_incoherent = true /\ coherent_targets ex_incoherent = false /\
+  map c_msg (s_comments (compile ex_incoherent)) = [9] /\ map c_msg (spec_comments (1, 1) ex_incoherent) = [9] /\
+  s_actors (compile ex_incoherent) = [1; 2] /\ fst (spec_actors_parts (1, 1) ex_incoherent) = [1; 2].
 Proof. vm_compute. repeat split. Qed.
 
 (* two operations with the same full id: metadata reaches the first only; a second create with the first id
